@@ -1,6 +1,7 @@
 package pathdbsim
 
 import (
+	"bytes"
 	"context"
 	"fmt"
 	"log/slog"
@@ -87,25 +88,102 @@ type simDB struct {
 
 func (d *simDB) AncientDatadir() (string, error) { return d.ancient, nil }
 
-// afterKV adds a gate AFTER every point read, so that a reader can be parked
-// holding a value it has read but not yet used (e.g. before it fills a clean cache).
-type afterKV struct {
+// gatedKV owns all scheduler gates of the key-value seam (the SimKV's own gates
+// are switched off): one gate before and one AFTER every point read (so that a
+// reader can be parked holding a value it has read but not yet used, e.g. before it
+// fills a clean cache), one before every write unit. Labels are canonical: they
+// hash the whole key, and a batch is labelled by its smallest key, not by the
+// first one (the tree under test fills batches in map iteration order).
+type gatedKV struct {
 	*simdisk.SimKV
+	w *world
 }
 
-func (a *afterKV) Get(key []byte) ([]byte, error) {
-	v, err := a.SimKV.Get(key)
-	if a.SimKV.GateReads && a.SimKV.Sched != nil {
-		a.SimKV.Sched.Gate("kv.got:" + keyLabel(key))
+func (g *gatedKV) on() bool { return g.w.gated && g.w.sched != nil }
+
+func keyLabel(key []byte) string {
+	if len(key) <= 12 {
+		return fmt.Sprintf("%x", key)
+	}
+	return fmt.Sprintf("%x-%x", key[:4], uint64(simcore.NewHash().Bytes(key)))
+}
+
+func (g *gatedKV) Get(key []byte) ([]byte, error) {
+	if g.on() {
+		g.w.sched.Gate("kv.get:" + keyLabel(key))
+	}
+	v, err := g.SimKV.Get(key)
+	if g.on() {
+		g.w.sched.Gate("kv.got:" + keyLabel(key))
 	}
 	return v, err
 }
 
-func keyLabel(key []byte) string {
-	if len(key) > 8 {
-		key = key[:8]
+func (g *gatedKV) Has(key []byte) (bool, error) {
+	if g.on() {
+		g.w.sched.Gate("kv.has:" + keyLabel(key))
 	}
-	return fmt.Sprintf("%x", key)
+	return g.SimKV.Has(key)
+}
+
+func (g *gatedKV) Put(key, value []byte) error {
+	if g.on() {
+		g.w.sched.Gate("kv.put:" + keyLabel(key))
+	}
+	return g.SimKV.Put(key, value)
+}
+
+func (g *gatedKV) Delete(key []byte) error {
+	if g.on() {
+		g.w.sched.Gate("kv.del:" + keyLabel(key))
+	}
+	return g.SimKV.Delete(key)
+}
+
+func (g *gatedKV) DeleteRange(start, end []byte) error {
+	if g.on() {
+		g.w.sched.Gate("kv.delrange:" + keyLabel(start))
+	}
+	return g.SimKV.DeleteRange(start, end)
+}
+
+func (g *gatedKV) SyncKeyValue() error {
+	if g.on() {
+		g.w.sched.Gate("kv.sync")
+	}
+	return g.SimKV.SyncKeyValue()
+}
+
+func (g *gatedKV) NewBatch() ethdb.Batch { return &gatedBatch{Batch: g.SimKV.NewBatch(), g: g} }
+func (g *gatedKV) NewBatchWithSize(n int) ethdb.Batch {
+	return &gatedBatch{Batch: g.SimKV.NewBatchWithSize(n), g: g}
+}
+
+type gatedBatch struct {
+	ethdb.Batch
+	g   *gatedKV
+	min []byte
+	n   int
+}
+
+func (b *gatedBatch) note(key []byte) {
+	if b.n == 0 || bytes.Compare(key, b.min) < 0 {
+		b.min = append(b.min[:0], key...)
+	}
+	b.n++
+}
+func (b *gatedBatch) Put(key, value []byte) error { b.note(key); return b.Batch.Put(key, value) }
+func (b *gatedBatch) Delete(key []byte) error      { b.note(key); return b.Batch.Delete(key) }
+func (b *gatedBatch) DeleteRange(start, end []byte) error {
+	b.note(start)
+	return b.Batch.DeleteRange(start, end)
+}
+func (b *gatedBatch) Reset() { b.n, b.min = 0, b.min[:0]; b.Batch.Reset() }
+func (b *gatedBatch) Write() error {
+	if b.n > 0 && b.g.on() {
+		b.g.w.sched.Gate("kv.batch:" + keyLabel(b.min))
+	}
+	return b.Batch.Write()
 }
 
 // world is one simulated machine: disk (KV + files) and the database on it.
@@ -118,6 +196,7 @@ type world struct {
 	disk  *simDB
 	db    *pathdb.Database
 	sched *simsched.Sched
+	gated bool
 
 	oldMaxDiff int
 }
@@ -185,14 +264,16 @@ func (w *world) open() {
 	if err := os.MkdirAll(filepath.Join(w.root, "ancient"), 0o755); err != nil {
 		simcore.Harnessf("mkdir: %v", err)
 	}
-	w.disk = &simDB{Database: rawdb.NewDatabase(&afterKV{w.kv}), ancient: filepath.Join(w.root, "ancient")}
+	w.disk = &simDB{Database: rawdb.NewDatabase(&gatedKV{SimKV: w.kv, w: w}), ancient: filepath.Join(w.root, "ancient")}
 	w.db = pathdb.New(w.disk, w.k.config(w.root), false)
 }
 
 func (w *world) setSched(s *simsched.Sched, reads, writes, iter bool) {
 	w.sched = s
+	w.gated = reads || writes
+	// iterator gates stay with the SimKV (their labels are canonical)
 	w.kv.Sched = s
-	w.kv.GateReads, w.kv.GateWrites, w.kv.GateIter = reads, writes, iter
+	w.kv.GateReads, w.kv.GateWrites, w.kv.GateIter = false, false, iter
 }
 
 // closeDB closes the database (waits for the flusher, closes the freezers).
@@ -245,6 +326,12 @@ func prologue() {
 	prologueOnce.Do(func() {
 		log.SetDefault(log.NewLogger(critHandler{}))
 		simsched.Prologue()
+		// A goroutine that triggers or waits for a GC cycle parks in plain
+		// "semacquire", which the lock-aware quiescence detection takes for a
+		// lock wait: the world would be declared quiescent while that goroutine is
+		// about to continue (measured: most C22 seeds diverged between GOMAXPROCS
+		// values). The collector therefore runs between runs only (runPlan).
+		debug.SetGCPercent(-1)
 	})
 }
 
